@@ -773,3 +773,50 @@ def selection_name(ctx):
             first = show(r['stdout']).split('\n')[0]
             if r['rc'] != 0 or first != '"' + name.replace('"', '""') + '"':
                 c.status = 'reproduced'; c.unmodelled = None; c.replay = {'argv': ['-o', 'csv', '--select', '.a=' + name], 'expected_header': '"' + name + '"', 'actual_header': first, 'rc': r['rc']}; break
+
+
+# ---------------------------------------------------------------- an index that does not fit is not an index
+def index_overflow(ctx):
+    """--select `#D…D` with L free digits: accepted exactly when the digits denote a value below 2^64 (an index that does not fit
+    usize is an unparsable expression, not the root)"""
+    run = ctx.run
+    fam = run.family('expr.index_overflow', 'an `#index` step is accepted exactly when its digits fit usize; a longer digit string is an error, never silently another expression')
+    run.bounds['index overflow'] = '`#` + L free digits for L in 1, 19, 20, 21 (the 64-bit boundary), leading digit non-zero'
+    body_rx = OPTION_READERS['Selection'][0]
+    for L in (1, 19, 20, 21):
+        ds = [z3.BitVec(f'd{i}', 8) for i in range(L)]
+        text = [z3.BitVecVal(ord('#'), 8)] + ds
+        fin = []
+        sc = expr_scenario(ctx, text, fin); ex = sc.ex
+        st = State(); src = seqobj(st, 'String', [BV(t) for t in text])
+        for i, t in enumerate(ds): st.pc.append(z3.And(z3.UGE(t, ord('1') if i == 0 else ord('0')), z3.ULE(t, ord('9'))))
+        val = z3.IntVal(0)
+        for t in ds: val = val * 10 + (z3.BV2Int(t) - 48)
+        fits = val < 2 ** 64
+        F = ex.find(body_rx)
+        KPANICS.clear(); ex.new_frame(st, F, [slot(st, src, 'src*')])
+        for d in ex.run(st) + sc.extra + list(KPANICS):
+            if d.status == 'infeasible': continue
+            run.paths += 1; fam.obligations += 1; fam.paths += 1; fam.witnesses += 1
+            hav = (d.havoc or [None])[0]; why = None
+            if d.status != 'returned': why = f'{d.status} {d.notes[-1:]}'; m = ex.valid(d, z3.BoolVal(False))[1]
+            else:
+                rd = cval(ex.discr(d, obj(d, d.ret)).t)
+                ok_, m = ex.valid(d, fits if rd == 0 else z3.Not(fits))
+                if not ok_: why = 'is accepted although the index does not fit 64 bits' if rd == 0 else 'is rejected although the index fits'
+            if why is None: fam.discharged += 1
+            elif not any(c.role == 'index' for c in fam.candidates):
+                tv = bytes(m.eval(t, True).as_long() for t in ds).decode() if m is not None else '9' * 21
+                fam.candidates.append(Candidate(fam.name, 'index', f'--select `#{tv}` {why}', {'digits': tv}, unmodelled=hav))
+        run.absorb(ex)
+    if fam.discharged: fam.add_sample({'text': '#<20 digits>', 'verdict': 'accepted iff below 2^64'})
+    from .cli import run_driver, show
+    for c in fam.candidates:
+        c.status = 'unit'
+        for digits in (c.model['digits'], '18446744073709551616', '99999999999999999999', '184467440737095516150'):
+            if int(digits) < 2 ** 64: continue
+            for argv in (['--select', f'#{digits}=x'], ['--filter', f'(= #{digits} 1)']):
+                r = run_driver(ctx, argv, b'[1,2]')
+                if not str(r['result']).startswith('err') or r['pulled'] or r['stdout']:
+                    c.status = 'reproduced'; c.unmodelled = None; c.replay = {'argv': argv, 'stdin': '[1,2]', 'expected': 'an error before anything is read', 'result': r['result'], 'pulled': r['pulled'], 'stdout': show(r['stdout'])[:80]}; break
+            if c.status == 'reproduced': break
